@@ -1,3 +1,9 @@
 fn main() {
+    // The deterministic composite-DAG probe needs ~4-6 s of cpu per run; on a heavily
+    // loaded machine that can be > 60 s of wall clock, so give the (inconclusive-only)
+    // wall-clock watchdog more room unless the caller chose a limit.
+    if std::env::var_os("VF_CASE_WALL_LIMIT_S").is_none() {
+        std::env::set_var("VF_CASE_WALL_LIMIT_S", "150");
+    }
     vf_core::main_with("C02", vf_c02::run, vf_c02::REPLAY);
 }
